@@ -61,4 +61,27 @@ func init() {
 		{"clear-forgets-orbits", "graph/search/search_all.go", "\tsg.Generators = nil\n\tsg.Orbits = nil\n}", "\tsg.Generators = nil\n}", "CAPTURE:graph/search.clearAutomorphismGroup:Orbits not cleared"},
 		{"next-retunes-split-level", "graph/search/search_all.go", "\tcont := true\n\tif iter.first {", "\tcont := true\n\tif iter.first && iter.m == 1 {\n\t\titer.splitLevel = 0\n\t}\n\tif iter.first {", "DERIVED:(*graph/search.GraphIterator).Next"},
 	}
+	mutants["C20"] = []mutant{
+		{"flush-error-dropped", "tsp/tsplib.go", "\terr = tw.Flush()\n\tif err != nil {\n\t\treturn err\n\t}\n", "\ttw.Flush()\n", "ERRCHK:tsp.LIB:call (*text/tabwriter.Writer).Flush"},
+		{"dimension-error-unchecked", "tsp/tsplib.go", "\t_, err = fmt.Fprintf(w, \"DIMENSION: %d\\n\", n)\n\tif err != nil {\n\t\treturn err\n\t}\n", "\t_, err = fmt.Fprintf(w, \"DIMENSION: %d\\n\", n)\n", "ERRCHK:tsp.LIB:call fmt.Fprintf"},
+		{"eof-failure-returns-nil", "tsp/tsplib.go", "\t_, err = io.WriteString(w, \"EOF\\n\")\n\tif err != nil {\n\t\treturn err\n\t}", "\t_, err = io.WriteString(w, \"EOF\\n\")\n\tif err != nil {\n\t\treturn nil\n\t}", "ERRCHK:tsp.LIB:call io.WriteString"},
+		{"flush-error-overwritten", "tsp/tsplib.go", "\terr = tw.Flush()\n\tif err != nil {\n\t\treturn err\n\t}\n", "\terr = tw.Flush()\n", "ERRCHK:tsp.LIB:call (*text/tabwriter.Writer).Flush"},
+		{"weights-arguments-swapped", "tsp/tsplib.go", "weights(i, j))", "weights(j, i))", "DOMAIN:tsp.LIB"},
+		{"weights-called-on-diagonal", "tsp/tsplib.go", "for j := 0; j < i; j++ {", "for j := 0; j <= i; j++ {", "DOMAIN:tsp.LIB"},
+		{"weights-one-based", "tsp/tsplib.go", "weights(i, j))", "weights(i+1, j+1))", "DOMAIN:tsp.LIB"},
+	}
+	mutants["C16"] = []mutant{
+		{"threshold-too-high", "comb/comb.go", " 3612, 1449, 746,", " 3612, 1450, 746,", "TABLE:comb.maxSizes[7]"},
+		{"threshold-too-low", "comb/comb.go", " 308, 227, 178,", " 308, 226, 178,", "TABLE:comb.maxSizes[11]"},
+		{"pascal-cell-wrong", "comb/comb.go", "{1, 12, 66, 220, 495, 792, 924}", "{1, 12, 66, 220, 495, 792, 942}", "TABLE:comb.smallEntries[12][6]"},
+		{"table-bound-off-by-one", "comb/comb.go", "\tif n <= 32 {\n\t\treturn smallEntries[n][k]", "\tif n <= 33 {\n\t\treturn smallEntries[n][k]", "TABLE:comb.CoeffUint64:smallEntries access"},
+		{"largest-k-guard-dropped", "comb/comb.go", "\tif k > largestK || n > maxSizes[k] {", "\tif k <= largestK && n > maxSizes[k] {", "TABLE:comb.CoeffUint64:guard"},
+		{"threshold-compared-with-wrong-row", "comb/comb.go", "\tif k > largestK || n > maxSizes[k] {", "\tif k > largestK || n > maxSizes[k-1] {", "TABLE:comb.CoeffUint64:guard n<=maxSizes[k]"},
+		{"symmetric-reduction-dropped", "comb/comb.go", "\tif k > n/2 {\n\t\tk = n - k\n\t}", "\tif k > n/2 && n <= 32 {\n\t\tk = n - k\n\t}", "TABLE:comb.CoeffUint64"},
+		{"coeff-maxint-check-dropped", "comb/comb.go", "\tif comb > maxInt {\n\t\tpanic(\"coeff does not fit in an int\")\n\t}\n\treturn int(comb)", "\treturn int(comb)", "TABLE:comb.Coeff:int("},
+		{"coeffs-plain-addition", "comb/comb.go", "tmp[j], overflow = addHasOverflowed(coeffs[i-1][j-1], coeffs[i-1][j])", "tmp[j] = coeffs[i-1][j-1] + coeffs[i-1][j]", "OVF:comb.Coeffs"},
+		{"unrank-plain-product", "comb/comb.go", "\t\t\thi, lo := bits.Mul64(b, l+1)\n\t\t\tif hi >= l+1-r {\n\t\t\t\t//The quotient doesn't fit in 64 bits so it is certainly larger than m.\n\t\t\t\tbreak\n\t\t\t}\n\t\t\tnext, _ := bits.Div64(hi, lo, l+1-r)", "\t\t\tnext := b * (l + 1) / (l + 1 - r)\n\t\t\t_ = bits.Len64(next)", "OVF:comb.Unrank"},
+		{"rank-unchecked-sum", "comb/comb.go", "\t\trank, overflow = addHasOverflowed(rank, c)\n", "\t\trank += c\n", "OVF:comb.Rank"},
+		{"checked-add-test-removed", "comb/comb.go", "\tif (sum^a)&(sum^b) < 0 {\n\t\treturn sum, true\n\t}\n\treturn sum, false\n}\n\n//CoeffUint64", "\treturn sum, false\n}\n\n//CoeffUint64", "OVF:comb.addHasOverflowed"},
+	}
 }
